@@ -26,6 +26,21 @@ Theorem C11_tables_total : forall c,
 Proof. exact tables_total. Qed.
 Print Assumptions C11_tables_total.
 
+(* the strict reading of the Rust sources (Gen.CurveTables.source_shape): the
+   reader reports exactly the anchored items and file inventories of
+   Spec.CurvesSpec.anchored_items, and the WHOLE token stream of each matched
+   its template - no extra statement, early return, conjunct or changed
+   operator anywhere in the functions the tables are read from; the decimal
+   literals of Curve::prime() are the executed primes and prime_size() is the
+   bit length of the stored prime *)
+Theorem C11_sources_recognised :
+  map fst source_shape = anchored_items /\
+  Forall (fun e => snd e = true) source_shape /\
+  (forall c, assoc (variant_name c) source_prime_literals = Some (prime c)) /\
+  (forall c, prime_size c = bit_size (prime c)).
+Proof. exact sources_recognised. Qed.
+Print Assumptions C11_sources_recognised.
+
 (* for every curve and EVERY name: the code's membership test answers exactly
    what the documentation table (with Circomlib's spelling) marks *)
 Theorem C11_bn254_table_exact : forall c name, flagged c name = doc_marks c name.
